@@ -133,8 +133,10 @@ func (t *HHWheelTimer) Shutdown() {
 	close(t.done)
 	t.wg.Wait()
 
+	t.guard.Lock()
 	t.C = nil
 	t.refer = nil
+	t.guard.Unlock()
 	t.state.Set(fatchoy.StateTerminated)
 }
 
@@ -145,6 +147,10 @@ func (t *HHWheelTimer) RunAfter(timeUnits int, r Runnable) int {
 	}
 
 	t.guard.Lock()
+	if t.refer == nil { // shut down: no timer is scheduled any more (0 is never a timer's id)
+		t.guard.Unlock()
+		return 0
+	}
 	var id = t.nextID()
 	var node = newWheelTimerNode(id, int64(timeUnits), 0, r)
 	t.refer[id] = node
@@ -162,6 +168,10 @@ func (t *HHWheelTimer) RunEvery(interval int, r Runnable) int {
 	}
 
 	t.guard.Lock()
+	if t.refer == nil { // shut down: no timer is scheduled any more (0 is never a timer's id)
+		t.guard.Unlock()
+		return 0
+	}
 	var id = t.nextID()
 	var node = newWheelTimerNode(id, 0, int64(interval), r)
 	t.refer[id] = node
